@@ -62,7 +62,12 @@ impl SiteTable {
             3 => Some("AOther"),
             _ => {
                 let suffix = file.rsplit("/src/").next().unwrap_or(file);
-                self.rows.get(&(suffix.to_string(), line)).copied()
+                let c = self.rows.get(&(suffix.to_string(), line)).copied();
+                if suffix.starts_with("iter/") && c.is_some() {
+                    // the traversal inside retain is not part of the model (its removals are)
+                    return Some("AOther");
+                }
+                c
             }
         }
     }
@@ -103,6 +108,12 @@ pub fn gen_binsim_program(rng: &mut SplitMix64) -> Program {
                 .collect(),
         );
     }
+    if rng.chance(1, 3) {
+        // retain / retain_force: the model sees its removals (replace_node with / without an
+        // observed value), the traversal is a stutter
+        let pi = rng.below(5) as u32;
+        p.threads.push(vec![if rng.chance(2, 3) { COp::Retain(pi) } else { COp::RetainForce(pi) }]);
+    }
     p
 }
 
@@ -124,6 +135,20 @@ fn op_coq(op: &COp) -> String {
         COp::Remove(k) => format!("ORemove {}", k),
         COp::Compute(k, f) => format!("OCompute {} (remap_tbl {} {})", k, f, k),
         other => panic!("binsim: operation {:?} is outside the model", other),
+    }
+}
+
+/// the model operations a completed call stands for, each with the result to compare (None: the
+/// implementation does not report one)
+fn model_ops(c: &Call) -> Vec<(String, Option<String>)> {
+    match (&c.op, &c.out) {
+        (COp::Retain(_), Res::Retained(log)) => log
+            .iter()
+            .filter(|e| !e.3)
+            .map(|e| (format!("OCondRemove {} {}", e.1, z(e.2)), None))
+            .collect(),
+        (COp::RetainForce(_), Res::Retained(log)) => log.iter().filter(|e| !e.3).map(|e| (format!("ORemove {}", e.1), None)).collect(),
+        (op, out) => vec![(op_coq(op), Some(res_coq(out)))],
     }
 }
 
@@ -174,14 +199,19 @@ pub fn case_of(p: &Program, r: &RunResult, sites: &SiteTable) -> BinsimOut {
     let _ = write!(s, "]%N {}%nat [", t.bins.len());
     let _ = write!(s, "{}", p.prefill.iter().map(|k| format!("OInsert {} {}", k, 1000 + *k as i64)).collect::<Vec<_>>().join("; "));
     let _ = write!(s, "] [");
+    let per_thread: Vec<Vec<(String, Option<String>)>> =
+        (0..p.threads.len()).map(|tid| r.calls.iter().filter(|c| c.tid == tid).flat_map(model_ops).collect()).collect();
     let _ = write!(
         s,
         "{}",
-        p.threads.iter().map(|ops| format!("[{}]", ops.iter().map(op_coq).collect::<Vec<_>>().join("; "))).collect::<Vec<_>>().join("; ")
+        per_thread.iter().map(|ops| format!("[{}]", ops.iter().map(|o| o.0.clone()).collect::<Vec<_>>().join("; "))).collect::<Vec<_>>().join("; ")
     );
     let _ = write!(s, "] [");
     let mut first = true;
-    for (tid, file, line, kind) in &r.trace_sites {
+    for ts in &r.trace_sites {
+        let (tid, file, line) = (&ts.tid, ts.file, &ts.line);
+        // integer control words and parks are outside this model
+        let kind = &(if ts.kind >= 3 { 3 } else { ts.kind });
         let cls = match sites.class(file, *line, *kind) {
             Some(c) => c,
             None => {
@@ -203,8 +233,12 @@ pub fn case_of(p: &Program, r: &RunResult, sites: &SiteTable) -> BinsimOut {
     let _ = write!(
         s,
         "{}",
-        (0..p.threads.len())
-            .map(|tid| format!("[{}]", r.calls.iter().filter(|c| c.tid == tid).map(|c| res_coq(&c.out)).collect::<Vec<_>>().join("; ")))
+        per_thread
+            .iter()
+            .map(|ops| format!(
+                "[{}]",
+                ops.iter().map(|o| match &o.1 { Some(r) => format!("Some ({})", r), None => "None".to_string() }).collect::<Vec<_>>().join("; ")
+            ))
             .collect::<Vec<_>>()
             .join("; ")
     );
